@@ -88,7 +88,7 @@ func main() {
 		v.Inconclude("engine did not boot in policy mode: " + err.Error())
 		os.Exit(v.Write())
 	}
-	rounds := args.Pick(2, 6)
+	rounds := args.Pick(5, 8)
 	for rd := 0; rd < rounds; rd++ {
 		v.Eval(1)
 		round := args.Batch*100 + rd
@@ -131,6 +131,9 @@ func main() {
 					url := host + "/x"
 					if host == "cache.com" {
 						url = fmt.Sprintf("cache.com/k%d", i%3)
+						if (wk+i)%2 == 0 { // a key of its own: always a miss, so responses are stored concurrently
+							url = fmt.Sprintf("cache.com/u%d-%d-%d", round, wk, i)
+						}
 					}
 					res := eng.SendRequest(sim.Txn{ID: id, Method: "GET", URL: url, Headers: h})
 					if res.Early() {
